@@ -1,0 +1,29 @@
+//go:build verif
+
+package strstore
+
+// Contracts for StrStore. Comment-only file. A stored string lives at buf[idx+4 : idx+4+n] where n
+// is the native (little-endian) 32-bit word at buf[idx:idx+4].
+
+//@ pred ssValid(s, idx) = 0 <= idx && idx + 4 <= len(s.buf) && idx + 4 + int(vs.LE32(s.buf, idx)) <= len(s.buf)
+
+//@ func StrStore.Get
+//@   arith int
+//@   props C07
+//@   requires !isnil(s) && (idx < 0 || idx >= len(s.buf) || ssValid(s, idx))
+//@   ensures idx < 0 || idx >= len(s.buf) ==> len(ret) == 0
+//@   ensures 0 <= idx && idx < len(s.buf) ==> len(ret) == int(vs.LE32(s.buf, idx)) && region(ret) == region(s.buf) && offset(ret) == offset(s.buf) + idx + 4
+//@   assigns \nothing
+
+//@ func StrStore.Len
+//@   arith int
+//@   props C07
+//@   requires !isnil(s)
+//@   ensures ret == len(s.buf)
+
+// Load is not verified (unsafe stores through a uint32 pointer in a loop over strings); its frame is trusted.
+//@ func StrStore.Load
+//@   trusted
+//@   props C07
+//@   requires !isnil(s)
+//@   assigns s.buf, s.buf[0:cap(s.buf)]
